@@ -65,6 +65,7 @@ def gen_postings(items):
 
     items.append(lambda: D('TERMINATED', const('src/docset.rs', 'TERMINATED'), 'src/docset.rs'))
     items.append(lambda: D('POSITION_GAP', const('src/postings/postings_writer.rs', 'POSITION_GAP'), 'src/postings/postings_writer.rs'))
+    items.append(lambda: D('POSITION_END', const('src/postings/recorder.rs', 'POSITION_END'), 'src/postings/recorder.rs'))
     items.append(lambda: D('MAX_TOKEN_LEN', const('src/tokenizer/mod.rs', 'MAX_TOKEN_LEN'), 'src/tokenizer/mod.rs'))
     items.append(lambda: D('TERMINFO_BLOCK_LEN', const('src/termdict/fst_termdict/term_info_store.rs', 'BLOCK_LEN'), 'term_info_store.rs'))
     items.append(lambda: D('VINT_STOP_BIT', const('common/src/vint.rs', 'STOP_BIT'), 'common/src/vint.rs'))
@@ -203,5 +204,51 @@ def gen_postings(items):
             D('VINT32_STOP_BIT', stop, 'local STOP_BIT of serialize_vint_u32'),
             D('VINT32_MAX_LEN', 5, 'vint_len: .take(5)')])
     items.append(vint_u32_ladder)
+
+    def reset_covers_new():
+        # `reset` must re-initialise every field the constructor initialises (C07_reset_equiv_open)
+        def body_in(path, impl, fn_name):
+            text = strip_comments(src(path))
+            i = text.find(impl)
+            if i < 0:
+                raise Fail(f'{path}: {impl} not found')
+            m = re.search(r'\bfn\s+' + fn_name + r'\b', text[i:])
+            if not m:
+                raise Fail(f'{path}: {impl}::{fn_name} not found')
+            j = text.index('{', text.index(')', i + m.end())) + 1
+            start = j; depth = 1
+            while depth and j < len(text):
+                depth += (text[j] == '{') - (text[j] == '}')
+                j += 1
+            return text[start:j - 1]
+        new = body_in(skip, 'impl SkipReader {', 'new')
+        reset = body_in(skip, 'impl SkipReader {', 'reset')
+        lit = re.search(r'SkipReader\s*\{(.*?)\};', new, flags=re.S)
+        if not lit:
+            raise Fail(f'{skip}: struct literal of SkipReader::new not found')
+        new_fields = set(re.findall(r'(?:^|,)\s*([a-z_]+)\s*(?::|,|$)', lit.group(1), flags=re.M))
+        new_fields = {f for f in new_fields if f}
+        reset_fields = set(re.findall(r'self\.([a-z_]+)\s*=[^=]', reset))
+        if 'read_block_info()' not in new or 'read_block_info()' not in reset:
+            raise Fail(f'{skip}: new/reset no longer call read_block_info')
+        missing = sorted(new_fields - {'skip_info'} - reset_fields)
+        # the value of the reset must be the constructor's: last_doc_in_previous_block = 0, ...
+        for f_, v in [('last_doc_in_previous_block', '0u32'), ('byte_offset', '0'), ('position_offset', '0u64'),
+                      ('remaining_docs', 'doc_freq'), ('owned_read', 'data')]:
+            if f_ in reset_fields and not re.search(r'self\.' + f_ + r'\s*=\s*' + re.escape(v) + r'\s*;', reset):
+                missing.append(f_ + ' (different value)')
+        bf = 'src/postings/block_segment_postings.rs'
+        breset = body_in(bf, 'impl BlockSegmentPostings {', 'reset')
+        bfields = set(re.findall(r'self\.([a-z_]+)\s*=[^=]', breset))
+        bmissing = sorted({'data', 'block_max_score_cache', 'block_loaded', 'doc_freq'} - bfields)
+        if breset.count('self.skip_reader.reset(') < 2:
+            bmissing.append('skip_reader.reset')
+        if 'self.load_block()' not in breset:
+            bmissing.append('load_block')
+        return '\n'.join([
+            D('SKIPREADER_RESET_MISSING', len(missing),
+              f'{skip}: fields of SkipReader::new not re-initialised by reset: {missing} (new: {sorted(new_fields)})'),
+            D('BLOCKPOSTINGS_RESET_MISSING', len(bmissing), f'{bf}::reset: missing {bmissing}')])
+    items.append(reset_covers_new)
 
     items.append(lambda: 'end Postings')
